@@ -32,6 +32,8 @@ SPEC['explanation'] += ' T10d: no received chunk is added to the accumulated res
 SPEC['decided'] += ['no chunk appended twice']
 SPEC['explanation'] += ' T14.close: only ConnectionClosed ends recv_close normally.'
 SPEC['decided'] += ['recv_close handler scope']
+SPEC['explanation'] += ' T25.bound: the delimiter search window of recv_until ends at the bound the MessageTooLong test uses.'
+SPEC['decided'] += ['search window and too-long test agree']
 MANIFEST = {
     'technique': 'resource-conservation (holder set) analysis over enumerated CFG paths with exception edges; ordering check in the send loop; writer/reader constant agreement',
     'text': ('Decides that no byte taken off the socket or out of the buffer can be lost on any path, including every '
@@ -250,10 +252,11 @@ def run(ctx):
     ru = prog.func(CLS + '.recv_until')
     finds = [n for n in ast.walk(ru.node) if isinstance(n, ast.Call) and isinstance(n.func, ast.Attribute) and n.func.attr == 'find'
              and n.args and txt(n.args[0]) == 'delimiter']
-    if not finds or len(finds[0].args) < 2 or not isinstance(finds[0].args[1], ast.Name):
-        ctx.unknown('T7.look', ru.fq, 'no <buffer>.find(delimiter, <start variable>, ...) call found', ru.loc)
+    finds = [f for f in finds if len(f.args) >= 2]
+    svars = {f.args[1].id for f in finds if isinstance(f.args[1], ast.Name)}
+    if not finds:
+        ctx.unknown('T7.look', ru.fq, 'no <buffer>.find(delimiter, <start>, ...) call found', ru.loc)
     else:
-        svar = finds[0].args[1].id
         dl_names = {'len(delimiter)'}
         for n in ast.walk(ru.node):
             if isinstance(n, ast.Assign) and txt(n.value) == 'len(delimiter)' and isinstance(n.targets[0], ast.Name):
@@ -283,7 +286,20 @@ def run(ctx):
                     out[k] = out.get(k, 0) + (v if isinstance(e.op, ast.Add) else -v)
                 return out
             return None
-        assigns = [n for n in ast.walk(ru.node) if isinstance(n, ast.Assign) and any(txt(t) == svar for t in n.targets)]
+        # T25.bound: the search window ends at the very bound the "too long" test uses (`len(recvd) > maxsize`): a delimiter found
+        # beyond it in one delivery would be MessageTooLong in another delivery of the same stream
+        bounds = {txt(c.comparators[0]) for c in ast.walk(ru.node) if isinstance(c, ast.Compare) and len(c.ops) == 1 and
+                  isinstance(c.ops[0], (ast.Gt, ast.GtE)) and txt(c.left).startswith('len(') and 'maxsize' in txt(c.comparators[0])}
+        for f in finds:
+            if len(f.args) >= 3 and bounds:
+                ctx.ob('T25.bound', ru.fq, 'the delimiter search ends at the bound of the too-long test (%s)' % sorted(bounds),
+                       txt(f.args[2]) in bounds, loc=loc(ru, f), detail='search end `%s`' % txt(f.args[2]))
+        assigns = [n for n in ast.walk(ru.node) if isinstance(n, ast.Assign) and any(txt(t) in svars for t in n.targets)]
+        # a start written in place (`find(delimiter, 0, maxsize)`) is judged like an assignment of that value
+        class _Direct:
+            def __init__(self, v):
+                self.value, self.lineno, self.col_offset = v, v.lineno, v.col_offset
+        assigns += [_Direct(f.args[1]) for f in finds if not isinstance(f.args[1], ast.Name)]
         for a in assigns:
             lf = linear(a.value)
             if lf is None:
